@@ -366,6 +366,12 @@ def parseAddition {V : Type} (W : World V) (P : Parser V) (o : Opts V) (k : Key)
         | .preserve => (some v, [])
         | .throw => (some v, [.parse k])      -- ParseError(item=key); the raw value is returned
 
+/-- keep one unknown key: `add_value = self.parse_addition(...)`; `addition[key] = add_value` unless unprovided -/
+def addStep {V : Type} (W : World V) (P : Parser V) (o : Opts V) (acc : List (Key × V) × List Err)
+    (kv : Key × V) : List (Key × V) × List Err :=
+  let (a, es) := parseAddition W P o kv.1 kv.2
+  ((match a with | some x => dset kv.1 x acc.1 | none => acc.1), acc.2 ++ es)
+
 /-- The dependency check (base.py:504-516 and 617-629).  `lack` is a Python set; it is listed here in
 the order of the declared fields. -/
 def depsCheck {V : Type} (P : Parser V) (st : St V) : St V :=
@@ -402,9 +408,8 @@ def dfScanStep {V : Type} [DecidableEq V] (W : World V) (P : Parser V) (o : Opts
     (s : DfScan V) (kv : Key × V) : DfScan V :=
   match getField W P kv.1 with
   | none =>
-    let (a, es) := parseAddition W P o kv.1 kv.2
-    { s with addition := (match a with | some x => dset kv.1 x s.addition | none => s.addition)
-             errs := s.errs ++ es }
+    let r := addStep W P o (s.addition, s.errs) kv
+    { s with addition := r.1, errs := r.2 }
   | some f =>
     let rank := idxOf (if f.allAliases.contains kv.1 then kv.1 else W.lower kv.1) f.allAliases
     match dget f.name s.inputs with
@@ -440,16 +445,17 @@ structure Merged (V : Type) where
   conflicts : List Key := []          -- lower-cased keys given twice with different values
 
 /-- the lower-casing pass (base.py:532-547) -/
+def ffMergeStep {V : Type} [DecidableEq V] (W : World V) (P : Parser V) (m : Merged V) (kv : Key × V) : Merged V :=
+  if P.ciNames.contains (W.lower kv.1) then
+    let k := W.lower kv.1
+    match dget k m.data with
+    | some v0 =>
+      if v0 ≠ kv.2 ∧ !m.conflicts.contains k then { m with conflicts := m.conflicts ++ [k] } else m
+    | none => { m with data := dset k kv.2 m.data }
+  else { m with data := dset kv.1 kv.2 m.data }
+
 def ffMerge {V : Type} [DecidableEq V] (W : World V) (P : Parser V) (data : List (Key × V)) : Merged V :=
-  if P.ciNames.isEmpty then { data := data } else
-  data.foldl (fun m kv =>
-    if P.ciNames.contains (W.lower kv.1) then
-      let k := W.lower kv.1
-      match dget k m.data with
-      | some v0 =>
-        if v0 ≠ kv.2 ∧ !m.conflicts.contains k then { m with conflicts := m.conflicts ++ [k] } else m
-      | none => { m with data := dset k kv.2 m.data }
-    else { m with data := dset kv.1 kv.2 m.data }) {}
+  if P.ciNames.isEmpty then { data := data } else data.foldl (ffMergeStep W P) {}
 
 /-- the alias loop (base.py:562-579): the value used and whether a differing duplicate was seen -/
 def ffPick {V : Type} [DecidableEq V] (ignoreConflicts : Bool) (m : Merged V) :
@@ -482,11 +488,9 @@ def ffFieldStep {V : Type} [DecidableEq V] (L : Legacy) (W : World V) (o : Opts 
 def ffAdditions {V : Type} (W : World V) (P : Parser V) (o : Opts V) (used : List Key) (data : List (Key × V))
     (st : St V) : St V :=
   if o.addition = .ignore then st else
-  let (add, errs) := data.foldl (fun (acc : List (Key × V) × List Err) kv =>
-    if used.contains kv.1 then acc else
-    let (a, es) := parseAddition W P o kv.1 kv.2
-    ((match a with | some x => dset kv.1 x acc.1 | none => acc.1), acc.2 ++ es)) ([], [])
-  { st with result := dupdate st.result add, errs := st.errs ++ errs }
+  let r := data.foldl (fun (acc : List (Key × V) × List Err) kv =>
+    if used.contains kv.1 then acc else addStep W P o acc kv) ([], [])
+  { st with result := dupdate st.result r.1, errs := st.errs ++ r.2 }
 
 def fieldFirst {V : Type} [DecidableEq V] (L : Legacy) (W : World V) (P : Parser V) (o : Opts V)
     (data : List (Key × V)) : St V :=
@@ -565,21 +569,20 @@ def pairwiseB {α : Type} (r : α → α → Bool) : List α → Bool
 def nodupB (l : List Key) : Bool := pairwiseB (fun a b => a != b) l
 
 def Parser.wf {V : Type} (W : World V) (P : Parser V) : Bool :=
-  let fs := P.fields.map (·.2)
-  nodupB (fs.map (·.name))                                        -- output names are distinct
-  && nodupB (fs.map (·.attname))
+  nodupB (P.fields.map (·.2.name))                                   -- output names are distinct
+  && nodupB (P.fields.map (·.2.attname))
   && nodupB (P.fields.map (·.1))
   && P.fields.all (fun kf => kf.1 == fieldKey W kf.2)
-  && pairwiseB (fun f g => disjoint f.allAliases g.allAliases) fs  -- no key is accepted by two fields
-  && fs.all (fun f => f.allAliases.head? == some (fieldKey W f))
-  && fs.all (fun f => f.allAliases.all fun a => a == fieldKey W f || f.aliases.contains a)
-  && fs.all (fun f => f.aliases.all fun a => f.allAliases.contains a)
-  && fs.all (fun f => f.aliases.all fun a => !(P.fields.map (·.1)).contains a)   -- apply_fields: alias vs field keys
+  && pairwiseB (fun f g => disjoint f.2.allAliases g.2.allAliases) P.fields   -- no key accepted by two fields
+  && P.fields.all (fun kf => kf.2.allAliases.head? == some kf.1)
+  && P.fields.all (fun kf => kf.2.allAliases.all fun a => a == kf.1 || kf.2.aliases.contains a)
+  && P.fields.all (fun kf => kf.2.aliases.all fun a => kf.2.allAliases.contains a)
+  && P.fields.all (fun kf => kf.2.aliases.all fun a => !(P.fields.map (·.1)).contains a)  -- apply_fields
+  && P.fields.all (fun kf => kf.2.allAliases.contains (if kf.2.ci then W.lower kf.2.attname else kf.2.attname))
+  && P.fields.all (fun kf => !kf.2.ci || kf.2.allAliases.all fun a => W.lower a == a)
+  && P.fields.all (fun kf => kf.2.ci || kf.2.allAliases.all fun a => !P.ciNames.contains (W.lower a))
+  && P.fields.all (fun kf => kf.2.deps.all fun d => (P.fields.map (·.2.name)).contains d)
   && P.depsOk
-  && fs.all (fun f => f.allAliases.contains (if f.ci then W.lower f.attname else f.attname))
-  && fs.all (fun f => !f.ci || f.allAliases.all fun a => W.lower a == a)
-  && fs.all (fun f => f.ci || f.allAliases.all fun a => !P.ciNames.contains (W.lower a))
-  && fs.all (fun f => f.deps.all fun d => (fs.map (·.name)).contains d)
   && P.aliasMap == aliasMapOf P.fields
   && P.ciNames == ciNamesOf P.fields
 
